@@ -65,7 +65,7 @@ pub fn event(ws: usize, lit: &[u8], follow: &[u8], origin: &str) -> J {
 fn follow_top(f: &[u8]) -> &[u8] { f }
 
 const SPECIALS: &[&[u8]] = &[b"\\\"", b"\\\\", b"\\n", b"\\/", b"\\u0041", b"\\u00e9", b"\\ud83d\\ude00", b"\\u0000", b"\\t\\r\\b\\f",
-    b"\x01", b"\x1f", b"\n", b"\t", b"\\x", b"\\u12G4", b"\\ud800", b"\\udfff", b"\\ud800\\u0041", b"\\ud83d\\ud83d", b"\\",
+    b"\x01", b"\x1f", b"\n", b"\t", b"\\x", b"\\u12G4", b"\\ud800", b"\\udfff", b"\\ud800\\u0041", b"\\ud83d\\ud83d", b"\\ud83d\\tde00", b"\\ud83dXude00", b"\\ud83d\\Ude00", b"\\ud83du\\de00", b"\\ud83d\\u de00", b"\\ud83d\\\\ude00", b"\\",
     "\u{e9}".as_bytes(), "\u{4e2d}".as_bytes(), "\u{1f600}".as_bytes(), b"\xff", b"\xc3", b"\xe4\xb8", b"\xed\xa0\x80", b"\xf4\x90\x80\x80", b"\xc0\x80", b"\x7f"];
 
 pub fn record(args: &[String]) -> i32 {
